@@ -746,8 +746,11 @@ def family_check(rep, family, tier, seed, compare, over_quick, over_thorough, de
         rest = []
         for g in groups.values():
             rnd.shuffle(g)
-            picked += g[:share]
-            rest += g[share:]
+            # (a small group is taken whole: its members differ in the ORDER of the same constructs,
+            # which is often the point)
+            n = len(g) if len(g) <= 3 else share
+            picked += g[:n]
+            rest += g[n:]
         rnd.shuffle(rest)
         recs = picked + rest[:max(0, limit - len(picked))]
     rep.notes.setdefault("replayed", {})[family] = {"exported": len(r.replay), "replayed": len(recs), "all": exhaustive}
